@@ -85,6 +85,11 @@ CHECKS = {
     technique="TLA+ spec RpycFiles: the chunked copy loop as a state machine model-checked by TLC for every chunk 1..4 and size 0..2*chunk+1, and the filtered directory walk as a function exported by TLC for every abstract tree x filter; every case materialised and pushed through the real classic.upload/download over a classic-mode connection with recursive byte-wise comparison; recorded read/write sizes trace-validated by TLC",
     text="TLC proves prefix-copied / complete / read-count / termination of the copy loop and enumerates 6285 (tree, filter) cases with the destination each must produce (filter applied to base names at every level, empty files and directories, seven size classes relative to the chunk); the cases run through the real code with chunk sizes 1-3 (7 and 64000 in samples) in both directions, and the local read/write size sequences of real transfers are accepted by the copy-loop specification",
     note="both 'machines' share one file system; quick tier executes a seeded sample of the walk table"),
+ "C18": dict(
+    spec="RpycRegistry", design="5/C18",
+    technique="TLA+ spec RpycRegistry (table with refresh times, pruning, notifications, malformed and silent input) model-checked by TLC; TLC -simulate behaviours replayed on real UDPRegistryServer / TCPRegistryServer objects with scripted fake sockets and a virtual clock, one main-loop iteration per step, comparing reply, notifications, table and loop liveness; real loopback UDP/TCP confirmation run",
+    text="TLC exhausts register/unregister/query/clock/malformed input for 3 addresses x 2 mixed-case names; each simulated behaviour is executed on real registry objects over UDP and TCP receive paths: replies must list exactly the live registrations oldest-refresh-first, notifications must match membership changes exactly, 13 kinds of malformed or silent input must neither change registrations nor stop or block the main loop",
+    note="virtual clock and fake listening sockets (plus one real-socket run per transport); order among equal refresh times unspecified; three genuine defects found here were repaired by fix: commits"),
 }
 NA = {}
 
